@@ -135,3 +135,10 @@ package server
 //@        forall(k, elem(unbox(data, []string), k) == listed(s, userInfo, k))
 //@   before call writeJSON(_, data): assert @listed_keys_can_be_signed_with \
 //@        forall(k, in(members, k) ==> keyTarget(s, k).Token != "")
+//@
+//@ func (*Server).Close
+//@   property C20
+//@   ghost signalled bool = false
+//@   before call builtin close(c): assert @the_health_loop_stop_channel_is_the_one_closed c == s.closeCh && !signalled
+//@   on call builtin close(c) ret (): signalled = true
+//@   ensures @stop_signal_given_whatever_the_tokens_answer old(s.closeCh) != nil ==> signalled
